@@ -3,6 +3,7 @@ package checks
 import (
 	"crypto/aes"
 	"crypto/cipher"
+	"fmt"
 	"math/rand"
 	"net"
 	"time"
@@ -460,10 +461,13 @@ func specs() []layerSpec {
 			Gen: func(r *rand.Rand) ([]byte, any, string) {
 				v := &dcmi.GetDCMISensorInfoRsp{Instances: uint8(r.Intn(256))}
 				n := r.Intn(9)
+				if r.Intn(4) == 0 {
+					n = r.Intn(201) // the count is a whole byte (the 8-per-page limit is the BMC's to keep); 200 IDs still fit a 512-byte datagram
+				}
 				for i := 0; i < n; i++ {
 					v.RecordIDs = append(v.RecordIDs, ipmi.RecordID(r.Intn(65536)))
 				}
-				return refcodec.GetDCMISensorInfo(v), v, string(rune('0' + n))
+				return refcodec.GetDCMISensorInfo(v), v, fmt.Sprintf("n%d", n/16)
 			}},
 	}
 }
